@@ -15,6 +15,11 @@
 (* the recorded input/output; the algorithm transcription (BatchImpl) is   *)
 (* not used here.  An event the predicates do not allow has no successor,  *)
 (* so the segment never reaches SegDone and is reported as rejected.       *)
+(* (The predicates are action guards rather than cfg INVARIANTs on         *)
+(* purpose: a violated INVARIANT stops TLC at the first bad segment, the   *)
+(* guards let every other segment of the batch still be validated.  In the *)
+(* verbose second pass the rejected event prints <<"WHY", seg, l, names>>  *)
+(* with the names of the failed predicates.)                               *)
 (***************************************************************************)
 EXTENDS Reclaim, TraceCommon
 
@@ -31,7 +36,7 @@ Verbose == "VERIF_VERBOSE" \in DOMAIN IOEnv
 Mark(ok, name) == IF ok THEN {} ELSE {name}
 WhyBatch(i, o) == Mark(NonNegOK(i, o), "NonNeg") \cup Mark(BoundOK(i, o), "Bound") \cup Mark(CapOK(i, o), "Cap")
                   \cup Mark(StaleOK(i, o), "Stale") \cup Mark(ZoneOK(i, o), "Zone")
-Explain(ok, what) == IF ~ok /\ Verbose THEN PrintT(<<"WHY", seg, l, what>>) ELSE TRUE
+Explain(ok, what) == IF Verbose THEN (IF ~ok THEN PrintT(<<"WHY", seg, l, what>>) ELSE TRUE) ELSE TRUE
 
 TCalc ==
   /\ IsEvent("calc")
